@@ -174,6 +174,10 @@ func c08Members() []*ref.G {
 		ref.NewPoint(geom.XYZ, false, ref.Counter()),
 		{Kind: ref.Collection, Kids: []*ref.G{ref.NewPoint(geom.XYZ, true, ref.CounterFrom(-90)), ref.NewLine(ref.LineString, geom.XYM, 2, ref.CounterFrom(120))}},
 		{Kind: ref.Collection},
+		// members without coordinates that bring a dimension of their own
+		ref.NewLine(ref.LineString, geom.XYM, 0, ref.Counter()),
+		ref.NewMultiPoint(geom.XYZM, []int{}, ref.Counter()),
+		ref.NewParts(ref.Polygon, geom.XYZ, []int{0}, ref.Counter()),
 	}
 }
 
@@ -252,7 +256,10 @@ func c08Exec(c *engine.Ctx, cs c08Case, onState func(multiset, key string)) {
 			}
 		}
 		// GeoJSON bbox for non-empty geometries in layouts the bbox encoder supports
-		if len(acc) > 0 && !b.IsEmpty() && b.Layout() != geom.NoLayout && b.Layout() <= geom.XYZM && jsonable(g) && g.Kind != ref.LinearRing {
+		// (every dimension the bbox carries must have data: X and Y, and Z when the layout has it; a
+		// member without coordinates may add an M or Z dimension that stays without data)
+		_, zData := acc["z"]
+		if len(acc) > 0 && (zData || b.Layout().ZIndex() < 0) && b.Layout() != geom.NoLayout && b.Layout() <= geom.XYZM && jsonable(g) && g.Kind != ref.LinearRing {
 			data, err := geojson.Marshal(t, geojson.EncodeGeometryWithBBox())
 			if err != nil {
 				fail("bbox-error", "geojson.Marshal with bbox: "+err.Error())
@@ -578,6 +585,33 @@ func c08Run(c *engine.Ctx) {
 						p /= 3
 					}
 					geoms = append(geoms, g)
+				}
+			}
+		}
+	}
+	// rings and lines that return to their first position in X and Y while the closing coordinate
+	// holds the strict maximum / minimum of one further dimension (a ramp, a timed lap), as a
+	// LinearRing, LineString, polygon shell, polygon hole, multi-line member, multi-polygon member
+	for _, l := range ref.LayoutsAll {
+		for d := 2; d < l.Stride(); d++ {
+			for _, ext := range []float64{1e6, -1e6} {
+				for _, n := range []int{4, 5} {
+					mk := func() []ref.C {
+						ln := ref.NewLine(ref.LineString, l, n, wobble())
+						ln.C1[n-1][0], ln.C1[n-1][1] = ln.C1[0][0], ln.C1[0][1]
+						ln.C1[n-1][d] = ref.F(ext)
+						return ln.C1
+					}
+					plain := ref.NewLine(ref.LineString, l, 4, ref.CounterFrom(3)).C1
+					geoms = append(geoms,
+						&ref.G{Kind: ref.LinearRing, Layout: l, C1: mk()},
+						&ref.G{Kind: ref.LineString, Layout: l, C1: mk()},
+						&ref.G{Kind: ref.Polygon, Layout: l, C2: [][]ref.C{mk()}},
+						&ref.G{Kind: ref.Polygon, Layout: l, C2: [][]ref.C{plain, mk()}},
+						&ref.G{Kind: ref.Polygon, Layout: l, C2: [][]ref.C{mk(), plain}},
+						&ref.G{Kind: ref.MultiLineString, Layout: l, C2: [][]ref.C{plain, mk()}},
+						&ref.G{Kind: ref.MultiPolygon, Layout: l, C3: [][][]ref.C{{plain}, {plain, mk()}}},
+					)
 				}
 			}
 		}
